@@ -222,8 +222,9 @@ class EIG(BaseRoutine):
         pfactor = pfactor.T
 
         # --- normalize participation factor ---
+        # after the transpose each row holds one mode: normalize each mode's participation to sum to one
         for item in range(n_state):
-            pfactor[:, item] /= W_abs[item]
+            pfactor[item, :] /= W_abs[item]
         pfactor = np.round(pfactor, 5)
 
         return mu, pfactor, N, W
